@@ -104,6 +104,69 @@ type mapLoop struct {
 	Done   *ssa.BasicBlock
 	Key    ssa.Value
 	Val    ssa.Value
+	Elems  *eng.RangeLoop // set for a loop over a slice of entries (Range, Next and Key are then nil)
+}
+
+// Src is the collection the loop runs over.
+func (l *mapLoop) Src() ssa.Value {
+	if l.Elems != nil {
+		return l.Elems.Slice
+	}
+	return l.Range.X
+}
+
+// At is a position for reports about the loop.
+func (l *mapLoop) At() token.Pos {
+	if l.Next != nil {
+		return l.Next.Pos()
+	}
+	if l.Header != nil && len(l.Header.Instrs) > 0 {
+		return l.Header.Instrs[len(l.Header.Instrs)-1].Pos()
+	}
+	return token.NoPos
+}
+
+// IsKey: v is the name of the entry of this iteration: the map key, or --
+// for a loop over a slice of entries -- the string field of the element.
+func (l *mapLoop) IsKey(v ssa.Value) bool {
+	if l.Elems == nil {
+		return l.Key != nil && (eng.Origin(v) == l.Key || eng.OriginX(v) == l.Key)
+	}
+	for _, w := range []ssa.Value{eng.Origin(v), eng.OriginX(v)} {
+		if fr, base, isF := eng.LoadedField(w); isF && isStringType(w.Type()) && fr.Name != "" && (eng.Origin(base) == l.Val || l.Elems.ElemOf(base)) {
+			return true
+		}
+	}
+	return false
+}
+
+// entryLoops: the map loops of f, and its full-range loops over a slice of
+// struct entries (Val is the element loaded in the body; the key is the
+// element's string field: IsKey).
+func entryLoops(f *ssa.Function) []mapLoop {
+	out := mapLoops(f)
+	for _, rl := range eng.RangeLoops(f) {
+		rl := rl
+		sl, ok := rl.Slice.Type().Underlying().(*types.Slice)
+		if !ok {
+			continue
+		}
+		if _, isSt := sl.Elem().Underlying().(*types.Struct); !isSt {
+			continue
+		}
+		l := mapLoop{Header: rl.Header, Body: rl.Body, Done: rl.Done, Elems: &rl}
+		eng.Instrs(f, func(in ssa.Instruction) {
+			if u, isU := in.(*ssa.UnOp); isU && u.Op == token.MUL && l.Val == nil && rl.InLoop(u.Block()) {
+				if ia, isIA := u.X.(*ssa.IndexAddr); isIA && ia.Index == rl.Idx && (ia.X == rl.Slice || eng.Same(ia.X, rl.Slice)) {
+					l.Val = u
+				}
+			}
+		})
+		if l.Val != nil {
+			out = append(out, l)
+		}
+	}
+	return out
 }
 
 func mapLoops(f *ssa.Function) []mapLoop {
@@ -140,8 +203,8 @@ func mapLoops(f *ssa.Function) []mapLoop {
 func c11Poll(c *eng.Ctx, poll *ssa.Function) {
 	p := c.P
 	var loop *mapLoop
-	for _, l := range mapLoops(poll) {
-		if call, _ := eng.TupleCall(l.Range.X); call != nil {
+	for _, l := range entryLoops(poll) {
+		if call, _ := eng.TupleCall(l.Src()); call != nil {
 			if cal := eng.Callee(&call.Call); cal != nil && p.CallGraph() != nil && returnsSnapshot(p, cal) {
 				ll := l
 				loop = &ll
@@ -180,7 +243,7 @@ func c11Poll(c *eng.Ctx, poll *ssa.Function) {
 	viaHelper := fetch != req
 	// R-C11-3 pairing of the request
 	a := req.Call.Args
-	okPair := req.Call.Method.Name() == "GetIfChanged" && len(a) == 3 && eng.OriginX(a[1]) == loop.Key
+	okPair := req.Call.Method.Name() == "GetIfChanged" && len(a) == 3 && loop.IsKey(a[1])
 	verOK := false
 	if fr, base, isF := eng.LoadedField(eng.OriginX(a[2])); isF && fr.Name == "version" && eng.Origin(base) != nil {
 		if eng.Origin(base) == loop.Val || isCellOf(base, loop.Val) {
@@ -210,7 +273,7 @@ func c11Poll(c *eng.Ctx, poll *ssa.Function) {
 			return // the "delete me" marker: C19
 		}
 		got, idx := eng.TupleCall(mu.Value)
-		c.Check(eng.Origin(mu.Key) == loop.Key && got == fetch && idx == 0, "R-C11-3", poll, in.Pos(), eng.InstrStr(in), "the value recorded for a name is the one fetched for that name in this iteration", "")
+		c.Check(loop.IsKey(mu.Key) && got == fetch && idx == 0, "R-C11-3", poll, in.Pos(), eng.InstrStr(in), "the value recorded for a name is the one fetched for that name in this iteration", "")
 	})
 
 	// R-C11-8: a successful answer carrying a version different from the held
@@ -337,7 +400,7 @@ func c11Poll(c *eng.Ctx, poll *ssa.Function) {
 			}
 		}
 		if n == 0 {
-			c.Ok("R-C11-1", poll, loop.Next.Pos(), "exits of the poll loop", "only the exhausted-iterator exit")
+			c.Ok("R-C11-1", poll, loop.At(), "exits of the poll loop", "only the exhausted-iterator exit")
 		}
 	}
 
@@ -349,7 +412,7 @@ func c11Poll(c *eng.Ctx, poll *ssa.Function) {
 	{
 		isMarker := func(in ssa.Instruction) bool {
 			mu, ok := in.(*ssa.MapUpdate)
-			if !ok || !eng.IsNilConst(eng.Origin(mu.Value)) || eng.Origin(mu.Key) != loop.Key {
+			if !ok || !eng.IsNilConst(eng.Origin(mu.Value)) || !loop.IsKey(mu.Key) {
 				return false
 			}
 			mt, _ := mu.Map.Type().Underlying().(*types.Map)
@@ -373,9 +436,9 @@ func c11Poll(c *eng.Ctx, poll *ssa.Function) {
 				return fr.Name
 			}
 			marked := map[string]bool{}
-			for _, l1 := range mapLoops(poll) {
+			for _, l1 := range entryLoops(poll) {
 				l1 := l1
-				if l1.Header == loop.Header || l1.Body == nil || l1.Done == nil || !eng.Same(l1.Range.X, loop.Range.X) || !l1.Done.Dominates(loop.Header) {
+				if l1.Header == loop.Header || l1.Body == nil || l1.Done == nil || !eng.Same(l1.Src(), loop.Src()) || !l1.Done.Dominates(loop.Header) {
 					continue
 				}
 				isMarker1 := func(in ssa.Instruction) bool {
@@ -431,7 +494,7 @@ func c11Poll(c *eng.Ctx, poll *ssa.Function) {
 				})
 			}
 		}
-		c.Check(hit == nil, "R-C11-1", poll, loop.Next.Pos(), "iterations of the poll loop", "every known name is either asked about or marked for removal in each poll (no name is silently left as it is: a successful poll brings EVERY known secret up to date)", func() string {
+		c.Check(hit == nil, "R-C11-1", poll, loop.At(), "iterations of the poll loop", "every known name is either asked about or marked for removal in each poll (no name is silently left as it is: a successful poll brings EVERY known secret up to date)", func() string {
 			if hit == nil {
 				return ""
 			}
@@ -439,15 +502,29 @@ func c11Poll(c *eng.Ctx, poll *ssa.Function) {
 		}())
 	}
 	// ... and the snapshot the loop runs over holds every name of the active set
-	if call, _ := eng.TupleCall(loop.Range.X); call != nil {
+	if call, _ := eng.TupleCall(loop.Src()); call != nil {
 		if sn := eng.Callee(&call.Call); sn != nil {
 			for _, sl := range mapLoops(sn) {
 				if nm, isAct := activeMapOf(sl.Range.X); !isAct || nm != "m" || sl.Body == nil {
 					continue
 				}
 				isPut := func(in ssa.Instruction) bool {
-					mu, ok := in.(*ssa.MapUpdate)
-					return ok && eng.Origin(mu.Key) == sl.Key
+					if mu, ok := in.(*ssa.MapUpdate); ok {
+						return eng.Origin(mu.Key) == sl.Key
+					}
+					// (a snapshot kept as a slice of entries: the entry appended carries the name)
+					if args, ok := eng.BuiltinCall(in, "append"); ok && len(args) == 2 && types.Identical(args[0].Type(), sn.Signature.Results().At(0).Type()) {
+						named := false
+						for _, x := range in.Block().Instrs {
+							if st, isSt := x.(*ssa.Store); isSt && eng.Origin(st.Val) == sl.Key {
+								if _, isF := eng.FieldOfAddr(st.Addr); isF {
+									named = true
+								}
+							}
+						}
+						return named
+					}
+					return false
 				}
 				hit, path := eng.SearchBlock(sn, sl.Body, nil, isPut, func(x ssa.Instruction) bool { return x.Block() == sl.Header })
 				if len(sl.Body.Instrs) > 0 && isPut(sl.Body.Instrs[0]) {
@@ -553,7 +630,7 @@ func c11Poll(c *eng.Ctx, poll *ssa.Function) {
 				break
 			}
 		}
-		c.Check(ok, "R-C11-1", poll, loop.Next.Pos(), site,
+		c.Check(ok, "R-C11-1", poll, loop.At(), site,
 			"a name may be skipped by a poll only under a condition that depends on a comma-ok read of the handle map Store.active.f (what is skipped is forgotten, and a name with a handle is never forgotten)",
 			"the skip condition does not depend on the handle map: a secret that is kept (it has a handle) but judged expired is never refreshed again although Refresh reports success")
 	}
@@ -568,7 +645,14 @@ func returnsSnapshot(p *eng.Prog, f *ssa.Function) bool {
 	if res.Len() != 1 {
 		return false
 	}
-	if _, ok := res.At(0).Type().Underlying().(*types.Map); !ok {
+	switch t := res.At(0).Type().Underlying().(type) {
+	case *types.Map:
+	case *types.Slice:
+		// (a slice of entries carrying their name)
+		if _, isSt := t.Elem().Underlying().(*types.Struct); !isSt {
+			return false
+		}
+	default:
 		return false
 	}
 	found := false
